@@ -9,6 +9,18 @@ E3 = "E3 choice-tape explorer (vmc/engines/choice.py)"
 
 # id: (engine, technique, level text, level note, design ref)
 CHECKS = {
+ "C15": (E2, "explicit-state BFS over read-only call histories on 3/5 live objects to the canonical-state fixpoint (no depth bound), differential oracle against pristine first calls, merge validation",
+         "State = full serialisation of every live object plus every localcider function's defaults/attributes/closures, module globals, class attributes and numpy/matplotlib global settings. All 168 (quick) / 280 (thorough) calls are executed from every reachable state (54 states / 18k transitions in the quick tier); each result must be bit-identical to the same call made first on a fresh object; alternative histories reaching a known state are expanded as well and must agree (merge validation). Because the search closes at a fixpoint it covers all finite histories over this alphabet.",
+         "Assumes state outside the serialisation (third-party private state) does not influence results; argument values are a finite menu.",
+         "DESIGN.md section 2.1-E2, section 4 C15"),
+ "C16": (E2, "explicit-state BFS over set/clear histories per sequence with a list reference model, to the fixpoint; exhaustive over words and argument alphabet",
+         "For every word over {S,Y,K,G} to length 3 (quick) / {S,T,Y,K,E,G} to length 4 and {S,Y,K}^5 (thorough) and two 12-mers, every history of set_phosphosites/clear_phosphosites over the full argument alphabet (all ints -(N+2)..N+2, all ordered pairs as list and tuple, duplicates) is explored until no new site list appears; every transition is compared with the list model and every state with the derived-value invariants (phosphosequence, kappa after phosphorylation, 2^k distribution in binary order, S/T/Y sites).",
+         "Non-integer positions are outside the property; other object state is C15's job.",
+         "DESIGN.md section 4 C16"),
+ "C20": (E2, "explicit-state BFS over palette-update histories with a dict reference model to the fixpoint; exhaustive rendering of short words and block-boundary lengths in every palette state",
+         "All palette states reachable with 19 valid palettes and every single fault of them are explored (19 states, ~18k transitions quick); accepted iff valid, commit only after validation; in every state every 1-2 residue word and the 20 rotations of the 20-letter cycle at block-boundary lengths (thorough: every length 1..120) are rendered and parsed token by token.",
+         "Upper-case colour names and extra keys are unspecified (dont-care).",
+         "DESIGN.md section 4 C20"),
  "C11": (E1, "exhaustive enumeration of words x complexity type x alphabet x window x step x word size (inputs x configurations); differential locality oracle plus independent entropy reference",
          "Every {L,K,F} word to length 5/7 and {A,S,T,D,E} word to length 4/6 under every (type, alphabet, window 1..N+1, step 1..N, word size 1..6) combination: shape, position row, range, locality against the one-window profile of a fresh object, WF against an independent Shannon entropy on the independently reduced window; all (N,w,s) triples to N=24/40 for shape/positions; unknown types and w>N rejected.",
          "LC and LZW values are only constrained by range and locality (the statement gives no formula for them).",
